@@ -548,8 +548,9 @@ theorem C12_abstract_state_follows (ss : Session) (op : Op) (a a' : Spec.Message
   model reports (`statusStr`, then `"ok"` for `finish`), the finished message and its decoding —
   never rejects: every successful call is accepted by `absOk` (whose `cur`, read off the decoded
   extents, is the cursor: `extents_prefix`), every failed call is `justified`; it equals the final
-  `checkSegment` in an abstract state `aF` that describes the final writer state (`AbsNum`).
-  What remains of `C12_full`: `checkSegment aF d …` itself (header, name equality by mode and
+  `checkSegment` in an abstract state `aF` that describes the final writer state (`AbsNum`) and whose
+  header is the decoded header, Z bits zero (the first clause of `checkSegment`).
+  What remains of `C12_full`: the rest of `checkSegment aF d …` (name equality by mode and
   records — `C12_refinement_item_modes` in the decoder's vocabulary —, TSIG record, size —
   `C12_limit_all_sequences` —, pointer audit — C13), `getters`, and the segments ended by
   `clear_rrs`. -/
@@ -560,6 +561,7 @@ theorem C12_walk_reaches_final_check_partial (macFn : Tsig → List UInt8 → Li
     (hno : ∀ op ∈ ops, op ≠ .clearRrs ∧ op ≠ .getters ∧ NonEmptySet op) (mac' : Option (List UInt8)) :
     ∃ m mac d aF, finish (run { w := { s0 with mode := mode } } ops).1.w macFn = .ok (m, mac) ∧
       Spec.Message.specDecodeMsg m = some d ∧ AbsNum (run { w := { s0 with mode := mode } } ops).1.w aF ∧
+      aF.hdr = d.msg.header ∧ aF.hdr.z = 0 ∧
       Spec.Message.walk false
           { mode := Driver.toSpecMode mode, buflen := buf.size, limit := min limit buf.size }
           (ops.map Driver.toSpecOp)
